@@ -177,25 +177,3 @@ func VH_C03_SNPs_e2e() {
 	vAssert("C03.e2e.output-equals-definition", string(w.buf) == exp)
 }
 
-// VH_C12_SNPs_sched: the same pipeline under every cooperative schedule (choice of the next goroutine at
-// each channel operation) and every select choice; the bytes written must not depend on the schedule.
-func VH_C12_SNPs_sched() {
-	N := vParam("N")
-	vNumCPU(vParam("NCPU"))
-	vSchedExplore(vParam("DEV"))
-	refFile := []byte(">ref\nAC\n")
-	var aln []byte
-	exp := "query,SNPs\n"
-	for n := 0; n < N; n++ {
-		aln = append(aln, []byte(">s"+strconv.Itoa(n)+"\nA"+string("ACGT"[n%4])+"\n")...)
-		exp += "s" + strconv.Itoa(n) + ","
-		if n%4 != 1 {
-			exp += "C2" + string("ACGT"[n%4])
-		}
-		exp += "\n"
-	}
-	w := &vCapture{}
-	err := SNPs(bytes.NewReader(refFile), bytes.NewReader(aln), false, false, 0, w)
-	vAssert("C12.snps.no-error", err == nil)
-	vAssert("C12.snps.output-independent-of-schedule", string(w.buf) == exp)
-}
